@@ -177,6 +177,26 @@ def work_receive(chunk: list) -> list:
                         for cut in range(len(d) + 1):
                             feed(d[:cut], both if cut % 7 == 0 or cut > len(d) - 70 or cut < 60 else (h.known_src,))
                         feed(d + b"\x00", both)
+            if family == "prefix-id-tail":
+                # history: traffic from an address whose (cached) verified peer has since been removed / re-added
+                some = sorted(h.prefixes.values())[0] + b"\xf9" + b"\x00" * 8
+                for how in ("remove_peer", "remove_by_address", "remove+readd"):
+                    nets = {id(o.network): o.network for o in h.ovs.values()}
+                    nets[id(h.node.network)] = h.node.network
+                    feed(some, (h.known_src,))        # warms every reverse-address cache
+                    for net in nets.values():
+                        peer = net.get_verified_by_address(h.known_src)
+                        if how == "remove_by_address":
+                            net.remove_by_address(h.known_src)
+                        elif peer is not None:
+                            net.remove_peer(peer)
+                        if how == "remove+readd":
+                            net.add_verified_peer(Peer(h.friend.my_peer.public_key.key_to_bin(),
+                                                       UDPv4Address("44.44.44.44", 4444)))
+                    feed(some, (h.known_src,))        # the first datagram after the removal
+                    feed(b"", (h.known_src,))
+                    for net in nets.values():
+                        net.add_verified_peer(Peer(h.friend.my_peer.public_key.key_to_bin(), h.known_src))
             res.append((tag, family, n, entered, viol))
         finally:
             h.close()
@@ -315,7 +335,7 @@ class _CB(overlays.PlainCommunity):
     community_id = bytes(range(31, 51))
 
 
-CHURN_ALPHABET = ["dA", "dB", "dU", "loadA", "unloadA", "loadB", "unloadB", "sniff"]
+CHURN_ALPHABET = ["dA", "dB", "dU", "loadA", "unloadA", "loadB", "unloadB", "sniff", "loadA2", "unloadA2"]
 
 
 def work_churn(chunk: list) -> list:
@@ -362,12 +382,14 @@ def work_churn(chunk: list) -> list:
                         # ... through its on_packet; which of them *handles* it is decided by the prefix test inside.
                         # Endpoint contract: prefix listeners get their own prefix, generic listeners get everything.
                         want = sorted(me for tag, (o, me) in live.items()
-                                      if (tag == "A" and ev == "dA") or (tag == "B" and ev == "dB"))
+                                      if (tag in ("A", "A2") and ev == "dA") or (tag == "B" and ev == "dB"))
                         if sorted(got) != want:
                             viol.setdefault("demux-wrong-listeners",
                                             (f"after {seq[:step + 1]} the datagram reached overlay instances {sorted(got)}, "
                                              f"registered for that prefix: {want}", {"churn": seq[:step + 1], "seed": seed}))
-                        if any(x.seen != a + 1 for x, a in zip(sniffers, s0)):
+                        # (a generic listener may see the datagram twice when two prefix listeners share a prefix - the
+                        # statement only promises that it still gets it)
+                        if any(x.seen < a + 1 for x, a in zip(sniffers, s0)):
                             viol.setdefault("demux-generic-listener-starved",
                                             (f"after {seq[:step + 1]} a generic listener missed the datagram",
                                              {"churn": seq[:step + 1], "seed": seed}))
@@ -375,6 +397,10 @@ def work_churn(chunk: list) -> list:
                         load(_CA, "A")
                     elif ev == "loadB" and "B" not in live:
                         load(_CB, "B")
+                    elif ev == "loadA2" and "A2" not in live:
+                        load(_CA, "A2")     # a second instance of the same class: same prefix, same endpoint
+                    elif ev == "unloadA2" and "A2" in live:
+                        w.loop.drive(live.pop("A2")[0].unload())
                     elif ev == "unloadA" and "A" in live:
                         w.loop.drive(live.pop("A")[0].unload())
                     elif ev == "unloadB" and "B" in live:
@@ -494,7 +520,7 @@ def run(ctx: core.Ctx) -> core.Report:
     n_snap, snaplen, v = work_snapshot(seed)
     for key, (what, rp) in v.items():
         violations.append(core.Violation(key, what, rp))
-    depth = 6 if ctx.thorough else 5
+    depth = 5 if ctx.thorough else 4    # 10-event alphabet (two overlays, a twin on the same prefix, a sniffer)
     churn = core.pmap(work_churn, [(i, depth, seed) for i in range(len(CHURN_ALPHABET))], ctx.jobs, chunk=1)
     n_churn = sum(c[0] for c in churn)
     for _, viol in churn:
